@@ -241,7 +241,7 @@ PROPS = {
     "C17": {
         "n": {"quick": 1, "thorough": 1},
         "exhaustive": True,
-        "cone": ["Bytes", "Regex", "Generated", "Channel", "Network", "NetworkAbs", "NetworkLemmas", "Platform", "PlatformLemmas", "Replay"],
+        "cone": ["Bytes", "Regex", "Generated", "Channel", "Network", "NetworkAbs", "NetworkLemmas", "Platform", "PlatformLemmas", "Replay", "NetworkTwins", "PlatformNav"],
         "rx": True,
         "rule": "exhaustive: every advertised platform name and every embedded definition file (documentation example excluded) is loaded with "
                 "platform.NewPlatform / NewPlatformVariant; for network definitions the driver runs against a device built from the definition "
@@ -251,7 +251,7 @@ PROPS = {
                 "the network driver instantiated with the GENERATED level records. Non-trivial = every case.",
         "level_text": "Theorems C17_names and C17_wf hold by kernel computation over the regenerated definitions (finite exhaustive domain: all "
                       "advertised names, all embedded files); C17_paths lifts well-formedness to the unbounded C04 tree theorems for every "
-                      "platform; C17_variant states the merge. Tied to platform/*.go and the YAML by loading and driving every definition.",
+                      "platform; C17_navigation / _nav_all / _strict_navigation / _start_only_*: for EVERY embedded network platform (checkers evaluated on the regenerated definitions, lifted by reflection lemmas) the hypotheses of the twin-prompt acquire theorem hold with the canonical prompts, hence from any level with an accurate cache every target whose path enters no escalate-less level is reached with exactly the tree path's commands, for every map order; levels without an escalate command (nokia_sros configuration-with-path) are starting points only and provably unreachable as targets. C17_variant states the merge. Tied to platform/*.go and the YAML by loading and driving every definition.",
         "level_note": "Exhaustive over the embedded definitions (exhaustive=true). Authenticated escalation edges are driven with a device that grants "
                       "without asking (the dialogue itself is C12's). User options layered on platform options: C19.",
     },
